@@ -518,3 +518,36 @@ class DetectGroupBoundaries(Contract):
 
 UNITS = [PaginateDefault(), PaginatePageBy(), PaginateSubline(), GetGroupHeaders(), DetectGroupBoundaries()]
 LEMMAS = [LemmaUnit("filter_min_max", lemma_filter_min_max)]
+
+
+# ---- strategy registry and encoder wiring: finite facts of the real objects (no inputs to quantify over) -------------------------------
+def strategy_registry_facts(index):
+    """After a UnifiedRTFEncoder is constructed, the registry resolves each strategy name to the class of that name, and the encoder's
+    service attributes are instances of the classes the carriers' contracts are stated on."""
+    ue = index.real_module("rtflite.encoding.unified_encoder")
+    reg = index.real_module("rtflite.pagination.strategies.registry").StrategyRegistry
+    enc = ue.UnifiedRTFEncoder()
+    defaults = index.real_module("rtflite.pagination.strategies.defaults")
+    grouping = index.real_module("rtflite.pagination.strategies.grouping")
+    want = {"default": defaults.DefaultPaginationStrategy, "page_by": grouping.PageByStrategy, "subline": grouping.SublineStrategy}
+    for name, cls in want.items():
+        got = reg.get(name)
+        yield (f"C04.registry_resolves_{name}_to_its_strategy_class", got is cls, {"got": getattr(got, "__name__", str(got)), "input": {"strategy_name": name}})
+    try:
+        reg.get("no_such_strategy")
+        unknown = "accepted"
+    except ValueError:
+        unknown = "ValueError"
+    yield ("unknown_strategy_name_is_refused", unknown == "ValueError", {"got": unknown})
+    wiring = {"encoding_service": ("rtflite.services.encoding_service", "RTFEncodingService"), "document_service": ("rtflite.services.document_service", "RTFDocumentService"),
+              "figure_service": ("rtflite.services.figure_service", "RTFFigureService"), "feature_processor": ("rtflite.pagination.processor", "PageFeatureProcessor"),
+              "renderer": ("rtflite.encoding.renderer", "PageRenderer")}
+    for attr, (mod, cls) in wiring.items():
+        obj = getattr(enc, attr, None)
+        yield (f"encoder_{attr}_is_a_{cls}", type(obj) is getattr(index.real_module(mod), cls), {"got": type(obj).__name__})
+    # the strategy classes implement paginate themselves (SublineStrategy may inherit helpers from PageByStrategy but not its paginate)
+    yield ("each_strategy_defines_its_own_paginate", all("paginate" in vars(c) for c in want.values()), {})
+
+
+from pyvc.units import TableUnit as _TableUnit
+TABLES = [_TableUnit("strategy_registry", strategy_registry_facts)]
